@@ -40,7 +40,8 @@ RO = ('totals_abort', 'totals', 'jv_fwd', 'jv_rev', 'cp_fd', 'cp_cs', 'check_tot
 OPS = MUT + RO[1:]                 # 'totals_abort' only exists on the 'abortfd' model
 REDUCED = ('run_model', 'set_b', 'set_out', 'totals', 'jv_rev', 'cp_fd', 'check_totals', 'coloring')
 
-MODELS = ['ff', 'nlbgs_aitken', 'newton_ls', 'broyden', 'approx', 'colorcomp', 'execcomp', 'execnewton', 'abortfd']
+MODELS = ['ff', 'nlbgs_aitken', 'newton_ls', 'broyden', 'approx', 'colorcomp', 'execcomp', 'execnewton', 'abortfd',
+          'ff_scaled']
 
 
 def _exec_problem(pal, cyc):
@@ -123,6 +124,13 @@ def _spec(mname, pal):
                 'responses': [{'name': 'c3.y'}, {'name': 'G.c1.y'}]}
     if mname == 'ff':
         cfg = {'topo': 'chain', 'kinds': 'allquad', 'wiring': 'conn_list', 'units': 'm_cm'}
+    elif mname == 'ff_scaled':
+        # solver scaling on outputs and residuals: the vectors rest in the scaled state, every
+        # query that works in physical units has to come back to exactly that state
+        cfg = {'topo': 'chain', 'kinds': 'allquad', 'wiring': 'conn_list', 'units': 'm_cm',
+               'solver_scaling': {'c1.y': {'ref': 4.0, 'ref0': 1.0},
+                                  'c2.y': {'ref': 0.5, 'res_ref': 8.0},
+                                  'ivc.p': {'ref': 3.0, 'ref0': -1.0}}}
     elif mname == 'nlbgs_aitken':
         cfg = {'topo': 'cycle_tail', 'kinds': 'mix1', 'nl': 'NLBGS', 'ln': 'Direct'}
     elif mname == 'newton_ls':
